@@ -105,6 +105,17 @@ def gen_cases(tier, seed):
                     files.append({"frame": f, "compression": None, "rel": (dirs[j] + "/" if dirs[j] else "") + "f%02d.parquet" % j})
                 cases.append({"id": "PH/%d/%s/%s" % (nf, layout, route), "frame": files[0]["frame"], "opts": {"has_nulls": True, "row_group_offsets": None},
                               "files": files, "layout": layout, "route": route, "mismatch": None})
+    # --- files of different writers in one list (this library's and another's): each row group must be decoded for what it is
+    for nf, pos in ((2, 1), (2, 0), (3, 2), (3, 1), (4, 3)):
+        for route in ("list", "dir", "glob"):      # (merge verifies the schemas, which two writers spell differently: a refusal)
+            k += 1
+            files = []
+            for j in range(nf):
+                f = {"seed": 1650 + 13 * k + j, "nrows": 40 + 3 * j, "rid0": 100 * j, "index": None,
+                     "cols": [{"name": "rid", "kind": "rid"}, {"name": "v0", "kind": "int64", "nulls": "none", "vals": "small"}]}
+                files.append({"frame": f, "compression": None, "rel": "f%02d.parquet" % j, "foreign": j == pos})
+            cases.append({"id": "MW/%d/%d/%s" % (nf, pos, route), "frame": files[0]["frame"], "opts": {"has_nulls": True, "row_group_offsets": None},
+                          "files": files, "layout": "flat", "route": route, "mismatch": None, "mixed_writers": True})
     # --- category counts that differ between files (a growing vocabulary: each file's labels are a prefix of the next one's)
     for counts in ([(3, 150), (9, 150), (90, 140), (100, 150), (127, 128), (5, 40, 300), (99, 100, 130)] if tier == "quick" else
                    [(a, b) for a in (1, 2, 3, 9, 10, 90, 99, 100, 127, 128) for b in (128, 129, 140, 150, 256, 257, 1000) if a < b] + [(5, 40, 300), (99, 100, 130)]):
@@ -164,6 +175,22 @@ def run_case(case):
             oe = {c["name"]: {"ostr": "utf8", "bytes": "bytes"}[c["kind"]] for c in f["frame"]["cols"] if c["kind"] in ("ostr", "bytes")}
             if oe:
                 kw["object_encoding"] = dict({str(c): "infer" for c in df.columns}, **oe)
+            if f.get("foreign"):
+                # the same frame through the specification-level writer: OPTIONAL columns without nulls whose level blocks are two runs /
+                # bit-packed, dictionary indices of width 8 in mixed runs, statistics with null_count 0 (what parquet-mr style writers emit)
+                from vf.ref import writer as W_
+                cols_ = [{"name": str(c_), "ptype": "INT64", "converted": None, "rows": [int(x) for x in df[c_].tolist()], "optional": True, "page_rows": [13, 20],
+                          "use_dict": bool(i_ % 2), "idx_plan": "mixed", "min_index_width": 8, "write_stats": True, "def_plan": ["mixed", "bp"][i_ % 2]}
+                         for i_, c_ in enumerate(df.columns)]
+                data_, _ = W_.build_file({"codec": "UNCOMPRESSED", "columns": cols_, "row_groups": [len(df)], "created_by": "parquet-mr version 1.12.3 (build abc)"})
+                with open(p, "wb") as fh_:
+                    fh_.write(data_)
+                counters["files_of_another_writer_in_the_set"] = counters.get("files_of_another_writer_in_the_set", 0) + 1
+                if first is None:
+                    first = df
+                frames.append(df)
+                paths.append(p)
+                continue
             if fixed_text:
                 kw["fixed_text"] = fixed_text
                 kw["object_encoding"] = dict(kw.get("object_encoding") or {str(c): "infer" for c in df.columns}, fw="utf8")
@@ -374,4 +401,4 @@ def run_case(case):
 def required(tier):
     return {"opens_compared": 120, "route:list": 15, "route:dir": 15, "route:glob": 15, "route:merge": 15, "route:merge_pf": 15,
             "footer_path:new": 30, "footer_path:legacy": 30, "mismatch_rejected": 20, "partition_values_checked": 100, "footer_lattice_points": 30,
-            "growing_vocabulary_opens": 20, "merge_with_root": 10, "piece_handles_rechecked": 40, "second_opens_from_derived_handles": 10, "mismatch_rejected:tz": 3, "mismatch_rejected:width": 3}
+            "growing_vocabulary_opens": 20, "merge_with_root": 10, "piece_handles_rechecked": 40, "second_opens_from_derived_handles": 10, "mismatch_rejected:tz": 3, "mismatch_rejected:width": 3, "files_of_another_writer_in_the_set": 10}
